@@ -1688,12 +1688,16 @@ def convectionTvdRHSSpherical3D(u: FaceVariable, phi: CellVariable, FL, *args):
     wb_min, wb_max = uz_min[:, :, 0:Nphi], uz_max[:, :, 0:Nphi]
 
     # calculate the TVD correction term
-    div_x = -(1.0/(DRp*rp))*(re*(ue_max*psiX_p[1:Nr+1, :, :]+ue_min*psiX_m[1:Nr+1, :, :]) -
-                             rw*(uw_max*psiX_p[0:Nr, :, :]+uw_min*psiX_m[0:Nr, :, :]))
-    div_y = -(1.0/(DTHETAp*rp))*((vn_max*psiY_p[:, 1:Ntheta+1, :]+vn_min*psiY_m[:, 1:Ntheta+1, :]) -
-                                 (vs_max*psiY_p[:, 0:Ntheta, :]+vs_min*psiY_m[:, 0:Ntheta, :]))
-    div_z = -(1.0/DZp)*((wf_max*psiZ_p[:, :, 1:Nphi+1]+wf_min*psiZ_m[:, :, 1:Nphi+1]) -
-                        (wb_max*psiZ_p[:, :, 0:Nphi]+wb_min*psiZ_m[:, :, 0:Nphi]))
+    thetap = u.domain.cellcenters._y[np.newaxis, :, np.newaxis]
+    thetaf = u.domain.facecenters._y[np.newaxis, :, np.newaxis]
+    sn = np.sin(thetaf[:, 1:Ntheta+1, :])
+    ss = np.sin(thetaf[:, 0:Ntheta, :])
+    div_x = -(1.0/(DRp*rp**2))*(re**2*(ue_max*psiX_p[1:Nr+1, :, :]+ue_min*psiX_m[1:Nr+1, :, :]) -
+                                rw**2*(uw_max*psiX_p[0:Nr, :, :]+uw_min*psiX_m[0:Nr, :, :]))
+    div_y = -(1.0/(DTHETAp*rp*np.sin(thetap)))*(sn*(vn_max*psiY_p[:, 1:Ntheta+1, :]+vn_min*psiY_m[:, 1:Ntheta+1, :]) -
+                                                ss*(vs_max*psiY_p[:, 0:Ntheta, :]+vs_min*psiY_m[:, 0:Ntheta, :]))
+    div_z = -(1.0/(DZp*rp*np.sin(thetap)))*((wf_max*psiZ_p[:, :, 1:Nphi+1]+wf_min*psiZ_m[:, :, 1:Nphi+1]) -
+                                            (wb_max*psiZ_p[:, :, 0:Nphi]+wb_min*psiZ_m[:, :, 0:Nphi]))
 
     # define the RHS Vector
     RHS = np.zeros((Nr+2)*(Ntheta+2)*(Nphi+2))
